@@ -387,6 +387,90 @@ def check_lifecycle(seq) -> Res:
     return Res("ok" if not viol else "violations", nontrivial=tuple(seq), violations=viol[:3], transitions=steps)
 
 
+# ------------------------------------------------------------------ two requests on ONE tool instance, in two threads
+_TH = {}
+THR_PAIRS = {
+    "gen": ("THR", "THR:\n  STATUS::BOGUS\n  NAME::n\n", "THR:\n  STATUS::ACTIVE\n  NAME::n\n"),
+    "meta": ("META", None, None),
+}
+
+
+def _thread_work():
+    """the server keeps one ValidateTool / WriteTool and serves requests from threads: request A is INVALID, request B is VALIDATED"""
+    if _TH:
+        return _TH
+    import asyncio
+    import json as _json
+    from octave_mcp.mcp.validate import ValidateTool
+    from octave_mcp.mcp.write import WriteTool
+    sl.install_schema("THR", sl.schema_text("THR", LIFE_V1, "REJECT"))
+    vt_, wt_ = ValidateTool(), WriteTool()
+
+    def summary(r):
+        return _json.dumps([r.get("validation_status"), r.get("valid"), sorted(str(e.get("code")) for e in (r.get("validation_errors") or []) if isinstance(e, dict))])
+
+    def tv(doc, schema):
+        def f():
+            loop = asyncio.new_event_loop()
+            try:
+                return summary(loop.run_until_complete(vt_.execute(content=doc, schema=schema)))
+            finally:
+                loop.close()
+        return f
+
+    def tw(doc, schema, name):
+        def f():
+            loop = asyncio.new_event_loop()
+            try:
+                return summary(loop.run_until_complete(wt_.execute(target_path=os.path.join(sl.lab()["dir"], "work", f"thr{os.getpid()}{name}.oct.md"), content=doc, schema=schema, corrections_only=True)))
+            finally:
+                loop.close()
+        return f
+
+    bad_gen, ok_gen = inst(THR_PAIRS["gen"][1]), inst(THR_PAIRS["gen"][2])
+    bad_meta = "===D===\nMETA:\n  TYPE::X\n---\nS:\n  K::v\n===END===\n"          # META.VERSION is missing
+    ok_meta = inst("S:\n  K::v\n")
+    _TH.update({"validate.gen": (tv(bad_gen, "THR"), tv(ok_gen, "THR")), "validate.meta": (tv(bad_meta, "META"), tv(ok_meta, "META")),
+                "write.gen": (tw(bad_gen, "THR", "a"), tw(ok_gen, "THR", "b"))})
+    return _TH
+
+
+_THREF = {}
+
+
+def check_thread_case(case) -> Res:
+    from ..env import threadsched as ts
+    name, start, switches = case
+    fns = _thread_work()[name]
+    switches = tuple(tuple(x) for x in switches)
+    results, n, taken = ts.run_schedule(fns, start, switches, "call")
+    viol = []
+    for i in (0, 1):
+        if results[i] != ("ok", _THREF[name][i]):
+            viol.append(dict(descriptor=f"threads:{name}:request-{'A(invalid)' if i == 0 else 'B(valid)'}-answered-differently-under-a-preemption", case=dict(tool="threads", pair=name, start=start, switches=[list(x) for x in switches]),
+                             observed=str(results[i])[:300], expected=str(_THREF[name][i])[:200] + " (the answer of the same request served alone)"))
+    return Res("ok" if not viol else "violations", nontrivial=(name, start, switches) if len(taken) == len(switches) and switches else None, violations=viol, transitions=sum(n))
+
+
+def threads(ctx):
+    from ..env import threadsched as ts
+    cases = []
+    bounds = {}
+    for name, fns in _thread_work().items():
+        for _ in range(2):
+            ref = [fns[0](), fns[1]()]
+        _THREF[name] = ref
+        r, n, _ = ts.run_schedule(fns, 0, (), "call")
+        r2, n2, _ = ts.run_schedule(fns, 1, (), "call")
+        npts = [max(n[0], n2[0]), max(n[1], n2[1])]
+        stride = 1
+        sch = ts.schedules(npts, 1, stride)
+        cases += [(name, s, sw) for s, sw in sch]
+        bounds[name] = {"granularity": "call", "points": npts, "preemptions": 1, "stride": stride, "schedules": len(sch), "sequential": ref}
+    ctx.coverage.setdefault("bounds", {})["threads"] = bounds
+    return ctx.explore("threads.shared_tool", cases, check_thread_case, chunk=50)
+
+
 FROZEN_EVENTS = ["install_good", "corrupt_same_size_keep_times", "corrupt_same_size", "corrupt_other_size", "delete", "touch"]
 
 
@@ -480,6 +564,8 @@ def run(ctx):
     from ..explore import Sequences
     ctx.explore("schema_lifecycle", Sequences(LIFE_EVENTS, 4 if ctx.quick else 5, 1), check_lifecycle, chunk=20)
     ctx.explore("frozen_lifecycle", Sequences(FROZEN_EVENTS, 3 if ctx.quick else 4, 1), check_frozen_lifecycle, chunk=20)
+    if not os.environ.get("VT_ONLY") or "threads.shared_tool" in os.environ.get("VT_ONLY", ""):
+        threads(ctx)
     sl.cleanup()
     if _AWAY.get("d"):
         shutil.rmtree(_AWAY["d"], ignore_errors=True)
@@ -493,6 +579,15 @@ def replay(ctx, rp):
             r = check_mutations((MUTATIONS.index(c["mutation"]), c["mode"], c["lenient"], c["corrections_only"]))
         elif t == "lifecycle":
             r = check_lifecycle(tuple(c["events"]))
+        elif t == "threads":
+            _thread_work()
+            for name, fns in _TH.items():
+                _THREF[name] = [fns[0](), fns[1]()]
+            a = check_thread_case((c["pair"], c["start"], c["switches"])).violations
+            b = check_thread_case((c["pair"], c["start"], c["switches"])).violations
+            if [v["observed"] for v in a] != [v["observed"] for v in b]:
+                raise RuntimeError("replay divergence: the same thread schedule gave two different observations")
+            return a
         elif t == "frozen_lifecycle":
             r = check_frozen_lifecycle(tuple(c["events"]))
         elif t == "validate":
